@@ -1,5 +1,6 @@
 import Driver.C11
 import Driver.C16
+import Driver.C09
 import Driver.C15
 import Driver.C07
 import Driver.C05
@@ -27,6 +28,8 @@ def dispatch (prop : String) (c obs : String) : String × String × Bool :=
   | "C07" => C07.run c obs
   | "C15" => C15.runStore c obs
   | "C15retry" => C15.runRetry c obs
+  | "C09" => C09.run c obs
+  | "C10" => C09.run10 c obs
   | "C14" => C14.runSched c obs
   | "C14live" => C14.runLive c obs
   | "C16" => C16.runDiff c obs
